@@ -36,5 +36,14 @@ for cfg in job['configs']:
     for h in job['histories']:
         impl = eng_impl.Impl()
         res.append([impl.run(l) for l in h])
-    out.append(res)
+    rres = []
+    if job.get('rah_histories'):
+        import c12
+        for h in job['rah_histories']:
+            try:
+                recs = c12.run_history_impl(h)
+                rres.append([[r['obs'], r['logs']] for r in recs])
+            except Exception as e:  # noqa
+                rres.append(['raise', type(e).__name__, str(e)[:200]])
+    out.append(res if 'rah_histories' not in job else {'eng': res, 'rah': rres})
 json.dump(out, sys.stdout)
